@@ -8,4 +8,5 @@ INVARIANTS
   NextIffMore
   PrevIffBefore
   FollowIsChunks
+  ResizeEnumerates
 CHECK_DEADLOCK FALSE
